@@ -77,6 +77,10 @@ func (c *Ctx) RunTasks(hangClause string) sim.RunResult {
 	r := c.S.Run()
 	switch r {
 	case sim.Hung:
+		if c.S.BlockedHolder() {
+			c.S.Violate(hangClause, "blocked-holding-the-cache-mutex", "a request is blocked for ever inside a region that holds the cache mutex; every other request waits for that mutex; pending tasks %v", c.S.PendingTasks())
+			return r
+		}
 		c.S.Violate(hangClause, strings.Join(c.S.PendingTasks(), ","), "requests still open but nothing is runnable (hang/deadlock); pending tasks %v", c.S.PendingTasks())
 	case sim.Capped:
 		// inconclusive, recorded in Aborted
